@@ -548,8 +548,9 @@ func (e *Extractor) showText(data []byte) {
 	if f, ok := e.fonts[fontName]; ok {
 		decodedText = f.DecodeString(data)
 	} else {
-		// No font registered - use raw bytes as string (fallback)
-		decodedText = string(data)
+		// No font selected - decode like the default font that an unknown Tf name gets,
+		// so that raw bytes never end up in the extracted text
+		decodedText = font.DecodeWithEncoding(data, "WinAnsiEncoding")
 	}
 
 	// Calculate text width
